@@ -77,3 +77,64 @@ let () =
   register "vptpure" (function [d] -> show_z (B.vpt_pure (list_of_sexp fdesc_of d)) | _ -> "!args");
   register "simplepure" (function [d] ->
     show_list (fun (f, i) -> "(" ^ show_str f ^ " " ^ show_z i ^ ")") (B.simple_pure (list_of_sexp fdesc_of d)) | _ -> "!args")
+
+(* C18 wire syntax
+     geom   (trials preamble ((f n) ..))
+     cobj   (kind within k trials mtr)     kind: atmost|atleast|exactlyk|exactlyrow|pin|mintrials|nogeom
+                                           within: none | geom     mtr: none | int
+     desc   (KIND geom (c ..) (copied ..))  KIND: leaf | (repeat i) | (merge (i ..)) | (nest o i inner_len) | skip
+     (hist18 (cobj ..) (desc ..))  -> per build "(SUMMARY (cobj ..))": summary none | ((kind within k trials) ..), then the store
+     (twin18 (cobj ..) (desc ..) i) -> summary of block i when only its dependency closure is built from fresh objects
+     (writes18)                                                                                           *)
+module R = Reuse
+let geom_of = function
+  | L [t; p; su] -> { R.g_trials = z_of_sexp t; R.g_preamble = z_of_sexp p;
+                      R.g_sustain = list_of_sexp (function L [f; n] -> (z_of_sexp f, z_of_sexp n) | _ -> failwith "sustain") su }
+  | _ -> failwith "geom"
+let kind_of = function
+  | A "atmost" -> R.KAtMost | A "atleast" -> R.KAtLeast | A "exactlyk" -> R.KExactlyK | A "exactlyrow" -> R.KExactlyKInARow
+  | A "pin" -> R.KPin | A "mintrials" -> R.KMinTrials | A "nogeom" -> R.KNoGeom | _ -> failwith "ckind"
+let cobj_of = function
+  | L [k; w; kk; tr; m] ->
+    { R.c_kind = kind_of k; R.c_within = (match w with A "none" -> None | g -> Some (geom_of g)); R.c_k = z_of_sexp kk;
+      R.c_trials = z_of_sexp tr; R.c_mtr = zopt_of m }
+  | _ -> failwith "cobj"
+let nats_of = list_of_sexp nat_of_sexp
+let dkind_of = function
+  | A "leaf" -> R.DLeaf | A "skip" -> R.DSkip
+  | L [A "repeat"; i] -> R.DRepeat (nat_of_sexp i)
+  | L [A "merge"; l] -> R.DMerge (nats_of l)
+  | L [A "nest"; o; i; n] -> R.DNest (nat_of_sexp o, nat_of_sexp i, z_of_sexp n)
+  | _ -> failwith "dkind"
+let desc_of = function
+  | L [k; g; cs; cp] -> { R.d_kind = dkind_of k; R.d_geom = geom_of g; R.d_cs = nats_of cs;
+                          R.d_copied = list_of_sexp bool_of_sexp cp }
+  | _ -> failwith "desc"
+let show_geom g =
+  "(" ^ show_z g.R.g_trials ^ " " ^ show_z g.R.g_preamble ^ " "
+  ^ show_list (fun (f, n) -> "(" ^ show_z f ^ " " ^ show_z n ^ ")") g.R.g_sustain ^ ")"
+let show_kind = function
+  | R.KAtMost -> "atmost" | R.KAtLeast -> "atleast" | R.KExactlyK -> "exactlyk" | R.KExactlyKInARow -> "exactlyrow"
+  | R.KPin -> "pin" | R.KMinTrials -> "mintrials" | R.KNoGeom -> "nogeom"
+let show_wopt = function None -> "none" | Some g -> show_geom g
+let show_cobj o =
+  "(" ^ show_kind o.R.c_kind ^ " " ^ show_wopt o.R.c_within ^ " " ^ show_z o.R.c_k ^ " " ^ show_z o.R.c_trials ^ " "
+  ^ show_zopt o.R.c_mtr ^ ")"
+let show_summary = function
+  | None -> "none"
+  | Some l -> show_list (fun (((k, w), kk), tr) -> "(" ^ show_kind k ^ " " ^ show_wopt w ^ " " ^ show_z kk ^ " " ^ show_z tr ^ ")") l
+let () =
+  register "hist18" (function [user; ds] ->
+    let st = ref (R.init_state (list_of_sexp cobj_of user)) in
+    let outs = Stdlib.List.map (fun d ->
+        let (s1, o) = R.build !st d in
+        st := s1;
+        "(" ^ show_summary o ^ " " ^ show_list show_cobj (R.store_list s1) ^ ")") (list_of_sexp desc_of ds) in
+    Stdlib.String.concat " " outs
+    | _ -> "!args");
+  register "twin18" (function [user; ds; i] ->
+    show_summary (R.fresh_summary (list_of_sexp cobj_of user) (list_of_sexp desc_of ds) (nat_of_sexp i)) | _ -> "!args");
+  register "shared18" (function [user; ds; i] ->
+    show_summary (R.shared_summary (list_of_sexp cobj_of user) (list_of_sexp desc_of ds) (nat_of_sexp i)) | _ -> "!args");
+  register "writes18" (function [] ->
+    show_list (fun (o, a) -> "(" ^ show_str o ^ " " ^ show_str a ^ ")") R.declared_writes | _ -> "!args")
